@@ -82,7 +82,7 @@ Definition run_vi (op : string) (a : list val) : list val :=
     end
   else if String.eqb op "vi.dec" then
     let mem := argH 1 a in let n := N.of_nat (length mem) in
-    match bb_set true mem n n (argN 2 a) with
+    match bb_set true mem n (if (length a <=? 3)%nat then n else argN 3 a) (argN 2 a) with
     | None => [VS "skip"]
     | Some b =>
         let '(r, b') := vi_decode k b in
@@ -184,6 +184,51 @@ Definition run_slip (op : string) (a : list val) : list val :=
     [VH (slip_encode (argB 0 a) (argH 1 a))]
   else [VS "unknown-op"].
 
+(* ---------------- endpoints (C17) ---------------- *)
+Definition src_pos (total : nat) (s : src) : val := VN (N.of_nat (total - length (s_stream s))).
+Definition run_ep (op : string) (a : list val) : list val :=
+  if String.eqb op "ep.get" || String.eqb op "ep.getatmost" then
+    (* ep.get octet stream script n *)
+    let s := mk_src (argB 0 a) (argH 1 a) (argLZ 2 a) in
+    let n := argN 3 a in
+    let total := length (argH 1 a) in
+    match (if String.eqb op "ep.get" then source_get_chunk s n else source_get_chunk_atmost s n) with
+    | None => [VS "out-of-fuel"]
+    | Some (DOk c, d, s') => [VN c; VH d; src_pos total s'; VS "-"]
+    | Some (DErr e, d, s') => [VS (ename e); VS "-"; (if errno_eqb e EINVAL then VS "-" else src_pos total s');
+                               (if errno_eqb e EINVAL then vbool (s_calls s' =? 0) else VS "-")]
+    end
+  else if String.eqb op "ep.put" || String.eqb op "ep.putatmost" then
+    (* ep.put octet data script n *)
+    let k := mk_snk (argB 0 a) (argLZ 2 a) in
+    if (argN 3 a <=? SSIZE_MAX) && (N.of_nat (length (argH 1 a)) <? argN 3 a) then [VS "skip"] else
+    match (if String.eqb op "ep.put" then sink_put_chunk k (argH 1 a) (argN 3 a) else sink_put_chunk_atmost k (argH 1 a)) with
+    | None => [VS "out-of-fuel"]
+    | Some (r, k') => [vdres r; VH (k_got k');
+                       (match r with DErr EINVAL => vbool (k_calls k' =? 0) | _ => VS "-" end)]
+    end
+  else
+    (* plumbing: srcoctet stream srcscript snkoctet snkscript [asize] [n] *)
+    let s := mk_src (argB 0 a) (argH 1 a) (argLZ 2 a) in
+    let k := mk_snk (argB 3 a) (argLZ 4 a) in
+    let total := length (argH 1 a) in
+    let fin3 (r : dres * src * snk) := let '(rc, s', k') := r in [vdres rc; VH (k_got k'); src_pos total s'] in
+    let fin3o (r : option (dres * src * snk)) := match r with None => [VS "out-of-fuel"] | Some x => fin3 x end in
+    let fin4 (r : option (dres * src * snk * list N)) :=
+      match r with None => [VS "out-of-fuel"]
+      | Some (rc, s', k', aux) => [vdres rc; VH (k_got k'); src_pos total s'; VH aux] end in
+    let aux := repeat 238 (N.to_nat (argN 5 a)) in
+    if String.eqb op "ep.cbc" then fin3 (sts_cbc s k)
+    else if String.eqb op "ep.ncbc" then fin3 (sts_n_cbc (N.to_nat (argN 5 a)) (argN 5 a) s k)
+    else if String.eqb op "ep.draincbc" then fin3o (sts_drain_cbc (sts_fuel s k (N.of_nat total)) s k)
+    else if String.eqb op "ep.stsn" then fin3o (sts_n s k (argN 5 a))
+    else if String.eqb op "ep.stsdrain" then fin3o (sts_drain s k)
+    else if String.eqb op "ep.someaux" then fin4 (sts_some_aux s k aux (argN 5 a))
+    else if String.eqb op "ep.atmostaux" then fin4 (sts_atmost_aux s k aux (argN 6 a))
+    else if String.eqb op "ep.naux" then fin4 (sts_n_aux s k aux (argN 6 a))
+    else if String.eqb op "ep.drainaux" then fin4 (sts_drain_aux s k aux)
+    else [VS "unknown-op"].
+
 Definition prefix_of (p s : string) : bool := String.prefix p s.
 
 Definition dispatch (op : string) (a : list val) : list val :=
@@ -192,4 +237,5 @@ Definition dispatch (op : string) (a : list val) : list val :=
   else if prefix_of "vi." op then run_vi op a
   else if prefix_of "ring." op then run_ring op a
   else if prefix_of "slip." op then run_slip op a
+  else if prefix_of "ep." op then run_ep op a
   else [VS "unknown-op"].
